@@ -161,6 +161,7 @@ impl Monitor for C14 {
         ];
         if tier != Tier::Miri {
             s.push(exhaustive("c14-ladder", 24 * 17 * 3));
+            s.push(exhaustive("v2-collide", 2 * spec::collide::v2_pairs().len() as u64));
             s.push(exhaustive("v2-dense", spec::v2::dense_count()));
             s.push(exhaustive("v2-sweep", spec::v2::sweep_count()));
         }
